@@ -38,6 +38,7 @@ type runStat struct {
 	Promotes      int            `json:"promotes"`
 	StalePromotes int            `json:"stalePromotes"`
 	StalePrios    int            `json:"stalePrios"`
+	StalePriosRaced int          `json:"stalePriosRaced"`
 	MidWashOps    int            `json:"midWashOps"` // lock sections of Add/Remove/Fill taken while a wash was in flight
 	Adopted       int            `json:"adopted"`
 	AdoptChecked  int            `json:"adoptChecked"`
@@ -116,9 +117,7 @@ func pickScenario(name string, rng *rand.Rand) scenario {
 	return s
 }
 
-var scenarioNames = []string{"mixed", "limits", "lifetime", "unsynced", "fork", "nofork", "blocklist", "errtrim", "drain", "basefee", "evalwindow", "reorg", "sponsor"}
-
-// "work" is run on request only: on the pinned tree its second oracle call reports a genuine misorder (order-stale-work)
+var scenarioNames = []string{"mixed", "limits", "lifetime", "unsynced", "fork", "nofork", "blocklist", "errtrim", "drain", "basefee", "evalwindow", "reorg", "sponsor", "work"}
 
 type recorder struct {
 	e     *env
@@ -381,6 +380,9 @@ func (r *recorder) genOps(n int) []op {
 
 func (r *recorder) doAdd(g int, kind string, s *txSpec) {
 	e := r.e
+	r.tr.mu.Lock()
+	r.tr.addHead[s.tx.Hash()] = e.lastHead
+	r.tr.mu.Unlock()
 	e.evs.emit(trace.Ev{"e": "AddBegin", "g": g, "h": s.h, "kind": kind})
 	var err error
 	switch kind {
@@ -727,6 +729,10 @@ func runRecord(scen string, seed int64, mode string) ([]trace.Ev, runStat) {
 		if s != nil {
 			r.preludeEvalWindow(s)
 		}
+	case "fork":
+		if s != nil {
+			r.preludeRacedAdd(s)
+		}
 	case "sponsor":
 		r.preludeSponsor()
 	case "work":
@@ -859,6 +865,7 @@ func runRecord(scen string, seed int64, mode string) ([]trace.Ev, runStat) {
 	}
 	r.st.StalePromotes = r.tr.stale
 	r.st.StalePrios = r.tr.stalePrio
+	r.st.StalePriosRaced = r.tr.stalePrioRaced
 	evs := e.evs.sorted()
 	r.st.Events = len(evs)
 	return evs, r.st
@@ -1232,4 +1239,46 @@ func (r *recorder) preludeSponsor() {
 	r.smu.Lock()
 	r.st.Counts["sponsored_txs"] += paidByOther
 	r.smu.Unlock()
+}
+
+// preludeRacedAdd (fork scenario, gate-scheduled): an Add evaluates - and prices - its tx against the last head before the
+// fork is priced in, is parked just before its critical section, the head moves on (the next block is a GALACTICA block:
+// priorities now have the base fee taken off), the wash for the new head runs to the end, and only then the Add inserts its
+// object. The following wash (head unchanged) leaves that object with the old head's priority: the known finding
+// order:stale-priority:add-raced-head-change. It lasts until the next head change.
+func (r *recorder) preludeRacedAdd(s *sched) {
+	e := r.e
+	if e.nextBaseFee() != nil || e.best().Header.Number()+2 < e.net.FC.GALACTICA {
+		return // needs: this head priced without a base fee, the next one with
+	}
+	var rich *acct
+	for _, a := range e.accts {
+		if !a.poor {
+			rich = a
+			break
+		}
+	}
+	x := e.build(txParams{org: rich, gas: 21000, coef: 51, ref: e.best().Header.Number(), exp: 1000}, nil)
+	r.addToUniverse(x)
+	adder := s.spawn("adder", 1, func() { r.doAdd(96, "remote", x) })
+	header := s.spawn("header", 1, func() { r.advanceHead(false) })
+	wash1 := s.spawn("washer", 1, func() { r.washOnce() })
+	wash2 := s.spawn("washer", 1, func() { r.washOnce() })
+	s.run(func(live []*task) *task {
+		switch {
+		case !adder.done && adder.where != "pre.add" && !header.done:
+			return adder
+		case !header.done:
+			return header
+		case !wash1.done:
+			return wash1
+		case !adder.done:
+			return adder
+		}
+		return wash2
+	})
+	r.smu.Lock()
+	r.bump("raced_adds")
+	r.smu.Unlock()
+	r.snapshotEvent("raced-add")
 }
